@@ -79,6 +79,14 @@ class SymScreen:
             ctx.assume(z3.And(z3.ULE(x0, C), z3.ULT(y0, Ln)))
             y = ctx.concretize(y0)
             x = ctx.concretize(x0)
+        elif type(cursor) is tuple and cursor[0] == 'among':
+            # the cursor is one of the listed (x, y) positions -- still chosen by the solver, one path each
+            x0 = ctx.bvvar('cx', 32)
+            y0 = ctx.bvvar('cy', 32)
+            ctx.assume(z3.And(z3.ULE(x0, C), z3.ULT(y0, Ln)))
+            ctx.assume(z3.Or([z3.And(x0 == px, y0 == py) for (px, py) in cursor[1]]))
+            y = ctx.concretize(y0)
+            x = ctx.concretize(x0)
         else:
             x, y = cursor
         self.cx, self.cy = x, y
@@ -161,6 +169,21 @@ class SymScreen:
                                         colours=(cell_attrs == 'sym'))
                     cells.append((Int('u32', xx), ctx.boolvar('cellp_%d_%d' % (yy, xx)), cell))
                 rows.append((Int('u32', yy), ctx.boolvar('rowp_%d' % yy), MapV(tuple(cells), 'map')))
+        elif type(buffer) is tuple and buffer[0] == 'sparse' and self.concrete_geom:
+            # only the listed (y, x) positions may hold a cell (symbolic presence/rendition); the rest of a
+            # large screen was never written
+            by_row = {}
+            for (yy, xx) in buffer[1]:
+                by_row.setdefault(yy, []).append(xx)
+            for yy in sorted(by_row):
+                cells = []
+                for xx in sorted(set(by_row[yy])):
+                    mk_ = markers(yy, xx) if markers else chr(ord('a') + (yy * 7 + xx) % 26)
+                    self.markers[(yy, xx)] = mk_
+                    cell = sym_charopts(ctx, L, 'cell_%d_%d' % (yy, xx), mk_, flags=(cell_attrs == 'sym'),
+                                        colours=(cell_attrs == 'sym'))
+                    cells.append((Int('u32', xx), ctx.boolvar('cellp_%d_%d' % (yy, xx)), cell))
+                rows.append((Int('u32', yy), ctx.boolvar('rowp_%d' % yy), MapV(tuple(cells), 'map')))
         elif buffer == 'one':
             ry = ctx.bvvar('buf_y', 32)
             rx = ctx.bvvar('buf_x', 32)
@@ -202,6 +225,11 @@ class SymScreen:
             f[S['g1_charset']] = tabs[names[g1]]
         # savepoints
         sps = []
+        if type(savepoints) is tuple and savepoints[0] == 'deep':
+            # a deep stack: n-1 copies of one symbolic entry below a separately symbolic top
+            base = self._savepoint(ctx, L, 'sp1', tabs, 'fixed')
+            sps = [base] * (savepoints[1] - 1)
+            savepoints = 1
         for i in range(savepoints):
             sps.append(self._savepoint(ctx, L, 'sp%d' % i, tabs, sp_charsets))
         f[S['savepoints']] = VecV(sps)
@@ -210,7 +238,20 @@ class SymScreen:
             sv = ctx.bvvar('savedcols', 32)
             ctx.assume(z3.ULE(sd, 1))
             ctx.assume(z3.And(z3.UGE(sv, 1), z3.ULE(sv, 140)))
-            f[S['saved_columns']] = Enum('Option', sd, {1: (Int('u32', sv),)})
+            # the integer type of the remembered width is read from the source
+            import re as _re
+            tt = eng.p.src.field_types.get('Screen', {}).get('saved_columns', '')
+            mt = _re.match(r'^Option<\s*(u8|u16|u32|u64|usize)\s*>$', tt)
+            if not mt:
+                raise Unmodelled('Screen.saved_columns has type %r' % tt)
+            ity = mt.group(1)
+            bits = BITS[ity]
+            if bits != 32:
+                raw = sv
+                sv = z3.Extract(bits - 1, 0, raw) if bits < 32 else z3.ZeroExt(bits - 32, raw)
+                if bits < 32:
+                    ctx.assume(z3.ULE(raw, (1 << bits) - 1))
+            f[S['saved_columns']] = Enum('Option', sd, {1: (Int(ity, sv),)})
         else:
             f[S['saved_columns']] = NONE
         self.value = Agg('Screen', f)
